@@ -99,15 +99,16 @@ def classes_for(focus):
            "wrong_key_sig_last_fee_covers", "missing_last_fee_covers"]
     c02 = ["valid", "valid_multi", "reward_plus1", "reward_exact_fees", "reward_minus1", "reward_prev_era", "fees_wrong_state",
            "reward_split_exact", "reward_split_plus1", "reward_split_big", "reward_wrap64",
-           "reward_claims_sibling_fees", "zero_output", "max_output", "over_max_output", "u64_output", "total_over_max", "overspend_by_1",
+           "reward_claims_sibling_fees", "null_parent_rogue", "height_zero_reported", "zero_output", "max_output", "over_max_output", "u64_output", "total_over_max", "overspend_by_1",
            "reward_no_fee_tx", "known_header_swapped_body",
            # one output paid out twice within a block creates value just as an inflated reward does
            "dup_ref_across_txs", "dup_ref_in_tx", "intra_block_spend", "dup_tx"]
     c05 = ["valid", "valid_multi", "pow_fails", "target_plus1", "target_minus1", "stale_target", "height_plus1",
            "height_minus1", "cb_height_wrong", "txs_reordered", "ts_equal_parent", "ts_before_parent", "ts_future_31", "ts_future_30",
            "ev_summary_hash", "ev_chain_sample", "ev_block_hash", "ev_other_fork", "ev_forged_consistent", "merkle_wrong",
-           "txs_dropped", "no_txs", "orphan", "known_header_swapped_body", "height_encoding_short"]
-    c16 = ["valid", "valid_multi", "reward_plus1", "reward_exact_fees", "reward_prev_era", "reward_split_plus1", "reward_wrap64",
+           "txs_dropped", "no_txs", "orphan", "known_header_swapped_body", "height_encoding_short",
+           "null_parent_rogue", "height_zero_reported", "one_byte_over_block_size", "exactly_at_block_size"]
+    c16 = ["null_parent_rogue", "height_zero_reported", "valid", "valid_multi", "reward_plus1", "reward_exact_fees", "reward_prev_era", "reward_split_plus1", "reward_wrap64",
            "reward_claims_sibling_fees", "reward_no_fee_tx", "fees_wrong_state", "reward_split_big"]
     return {"C01": c01, "C02": c02, "C05": c05, "C16": c16, "all": sorted(set(c01 + c02 + c05))}[focus]
 
@@ -115,7 +116,7 @@ def classes_for(focus):
 EXPECT_VALID = {"prelude_valid", "valid", "valid_multi", "valid_many_inputs", "reward_exact_fees", "reward_minus1", "max_output", "ts_future_30",
                 "reward_split_exact"}
 # classes whose verdict depends on the sampled data (not asserted by the monitor, only compared)
-UNDETERMINED = {"ev_other_fork", "fees_wrong_state"}
+UNDETERMINED = {"ev_other_fork", "fees_wrong_state", "one_byte_over_block_size", "exactly_at_block_size"}
 
 
 def make_candidate(cr, klass, parent_hash, now_holder):
@@ -398,6 +399,21 @@ def make_candidate(cr, klass, parent_hash, now_holder):
             outs = [(o.value + 1, 0)]
         return cr.craft(parent_hash, others=[chain.make_tx(keys, utxo, [r], outs)]), now
     # ---- header
+    if klass == "null_parent_rogue":
+        # a block that names the all-zero hash as its parent (as only the genesis block does) offered to a chain that exists: its
+        # own target (the easiest), a height above the tip, a reward of a million coin, made-up evidence
+        tip_h = cs.head().height
+        h = tip_h + rng.choice([1, 5]) if rng.random() < 0.7 else rng.choice([0, 1, parent.height + 1])
+        cb = coinbase(h, rng.choice([chain.subsidy(h) + 1, 10 ** 14]), keys.pk(0))
+        root = consensus.calc_merkle_root_hash([cb])
+        s_ = BlockSummary(h, b"\x00" * 32, root, parent.timestamp + 50, b"\xff" * 32, rng.randrange(0, 1 << 30))
+        return Block(BlockHeader(s_, PowEvidence(b"\x11" * 32, b"\x22" * 32, b"\x33" * 32)), [cb]), now
+    if klass == "height_zero_reported":
+        # a block on a stored parent that reports height 0 (header and reward data), paying one unit more than height 0 allows
+        return cr.craft(parent_hash, others=[], height=0, cb_height=0, reward_value=chain.subsidy(0) + 1), now
+    if klass in ("one_byte_over_block_size", "exactly_at_block_size"):
+        # a valid block; the configured size bound is set to its size minus one / to its size when it is offered
+        return cr.craft(parent_hash, others=t.random_txs(parent_hash, rng.randrange(0, 3))), now
     if klass == "height_encoding_short":
         # the bytes of a valid block with the height field re-written in the textbook variable-length form, which is one octet
         # shorter than the network's whenever the bit length of the height is a multiple of 7 (64 … 127, 8192 … 16383)
@@ -831,6 +847,12 @@ def run_ledger(ctx, focus, res=None, n_trees=None, per_tree=None, with_tall=True
             parent_hash = rng.choice(tree.blocks[-8:]).hash() if rng.random() < 0.7 else rng.choice(tree.blocks).hash()
             if tall and k % 2 == 0:
                 parent_hash = rng.choice(tree.blocks[2:45]).hash()      # far behind the head
+            if cfg == 2 and k % 4 == 1:
+                # directly on a block AT the checkpoint horizon: the first height that is fully validated
+                at_h = [b for b in tree.blocks if b.height == consensus.MAX_KNOWN_HASH_HEIGHT]
+                if at_h:
+                    parent_hash = rng.choice(at_h).hash()
+                    res.count("candidates_on_a_parent_at_the_horizon")
             if tall and klass == "height_encoding_short":
                 parent_hash = tree.blocks[rng.randrange(63, 127)].hash()
             if deep_side_tip is not None and klass in ("stale_target", "target_plus1", "target_minus1", "valid",
@@ -881,10 +903,22 @@ def run_ledger(ctx, focus, res=None, n_trees=None, per_tree=None, with_tall=True
                 except Exception as e:
                     blk, err = None, e
                     res.count("reject-kind:undecodable")
+            size_saved = None
+            if klass in ("one_byte_over_block_size", "exactly_at_block_size") and blk is not None:
+                from .c19 import patch_everywhere
+                size_limit = len(blk.serialize()) - (1 if klass == "one_byte_over_block_size" else 0)
+                size_saved = patch_everywhere("MAX_BLOCK_SIZE", size_limit)
+                ops.append("p maxBlockSize %d" % size_limit)
+                impl.append("ok")
             try:
                 if blk is None:
                     raise err
-                after_state = base.add_block(blk, now)
+                try:
+                    after_state = base.add_block(blk, now)
+                finally:
+                    if size_saved is not None:
+                        for m_, v_ in size_saved:
+                            m_.MAX_BLOCK_SIZE = v_
                 verdict = "ok"
             except Exception as e:
                 after_state = None
@@ -908,6 +942,14 @@ def run_ledger(ctx, focus, res=None, n_trees=None, per_tree=None, with_tall=True
             sig_mark = len(keys.oracle)
             ops.append("add x t %s %d" % (hx(ser), now))
             impl.append(verdict)
+            if size_saved is not None:
+                ops.append("p maxBlockSize 200000")
+                impl.append("ok")
+                if (verdict == "ok") != (klass == "exactly_at_block_size") and blk.height > horizon:
+                    res.violations.append({"kind": "a block of %d bytes was %s with the size bound set to %d"
+                                                   % (len(ser), "accepted" if verdict == "ok" else "refused", size_limit),
+                                           "class": klass, "block": ser.hex(), "now": now,
+                                           "tree": [b.serialize().hex() for b in tree.blocks][:700]})
             res.case(ser, nontrivial=True)
             res.count("class:" + klass)
             res.count("verdict:" + verdict)
